@@ -72,14 +72,24 @@ theorem cons_step (s : St) (op : Op) (h : Cons s) : Cons (step s op) := by
     simp only [step, doRecv]
     split
     · rename_i hp
-      simp only [doA]
+      have hcases : doA s = yieldNow s ∨ doA s = doAcore s := by
+        unfold doA; split
+        · split <;> simp
+        · simp
+      rcases hcases with e | e <;> rw [e]
+      · simp only [yieldNow, deliveredOf, inflight, hp] at hj ⊢; exact hj
+      simp only [doAcore]
       split
       · simp only [deliveredOf, inflight, hp] at hj ⊢; exact hj
       · split
         · simp only [deliveredOf, inflight, hp] at hj ⊢; exact hj
         · simp only [deliveredOf, inflight, hp] at hj ⊢; exact hj
     · rename_i t k hp
-      simp only [doB]
+      have hcases : doB s t k = doBex s t k ∨ doB s t k = doBcore s t k := by
+        unfold doB; split <;> simp
+      rcases hcases with e | e <;> rw [e]
+      · simp only [doBex, fire, deliveredOf, inflight, hp] at hj ⊢; exact hj
+      simp only [doBcore]
       split
       · rename_i item q' hq
         simp only [deliveredOf, inflight, hp] at hj ⊢
@@ -101,6 +111,7 @@ theorem cons_step (s : St) (op : Op) (h : Cons s) : Cons (step s op) := by
       | none => simp only [doC, deliveredOf, inflight, hp] at hj ⊢; exact hj
       | pend => simp only [doC, deliveredOf, inflight, hp] at hj ⊢; exact hj
     · exact hj
+  | exhaust => exact hj
 
 theorem reachable_cons (ops : List Op) : Cons (ops.foldl step {}) := by
   suffices h : ∀ s, Cons s → Cons (ops.foldl step s) from h _ cons_init
